@@ -83,6 +83,14 @@ class ListV:
         self.parts = list(parts)
 
 
+class Uninit:
+    """storage obtained from Box::new_uninit: remembers the value written into it"""
+    __slots__ = ('v',)
+
+    def __init__(self, v=None):
+        self.v = v
+
+
 UNIT = Tup([])
 
 
@@ -103,6 +111,8 @@ def clone_val(v, memo):
         return Iter(clone_val(v.base, memo), v.pos, v.end, v.kind, v.extra, [clone_val(x, memo) for x in v.fns])
     if isinstance(v, ListV):
         return ListV(list(v.parts))
+    if isinstance(v, Uninit):
+        return Uninit(clone_val(v.v, memo))
     raise TypeError(v)
 
 
@@ -255,6 +265,7 @@ class Interp:
         self.obligations = []           # arithmetic obligations: (site, op, discharged)
         self.loop_info = []             # (fn, head, kept candidates)
         self.assume_no_wrap = assume_no_wrap
+        self.exempt_usize_adds = 0
         self._unsat_cache = {}
         from . import stdsum
         self.std = stdsum.TABLE
@@ -358,6 +369,8 @@ class Interp:
             return ('iter', v.kind, self.to_term(st, v.base) if v.base is not None else None, v.pos, v.end)
         if isinstance(v, ListV):
             return ('list', tuple(v.parts))
+        if isinstance(v, Uninit):
+            return self.to_term(st, v.v)
         if v is None:
             return ('undef',)
         raise TypeError(v)
@@ -391,6 +404,8 @@ class Interp:
 
     def project(self, st, v, p):
         k = p[0]
+        if isinstance(v, Uninit) and k in ('f', 'deref'):
+            return v
         if k == 'f':
             _, idx, name, adt, fty = p
             if isinstance(v, (Tup, Adt)):
@@ -484,7 +499,7 @@ class Interp:
                 v = self.load(st, cell, path)
                 if isinstance(v, Ref):
                     cell, path = v.cell, list(v.path)
-                elif isinstance(v, Sym):
+                elif isinstance(v, (Sym, Uninit)):
                     pass  # transparent
                 else:
                     raise Unanalysable('deref of non-reference %r in %s' % (v, fr.fn.path))
@@ -514,6 +529,9 @@ class Interp:
         parent = self.load(st, cell, path[:-1])
         p = path[-1]
         k = p[0]
+        if isinstance(parent, Uninit):
+            parent.v = val
+            return
         if k == 'f':
             _, idx, name, adt, fty = p
             if isinstance(parent, (Tup, Adt)):
@@ -613,6 +631,10 @@ class Interp:
             if op.endswith('Unchecked'):
                 return r
             # plain (wrapping in release): exact only if provably in range
+            if ty == 'usize' and base == 'Add' and ((T.is_int(a) and 0 <= a[1] < 2 ** 32) or (T.is_int(b) and 0 <= b[1] < 2 ** 32)):
+                # DESIGN 3/E6: a 64-bit usize counter advanced by a small constant cannot be exhausted
+                self.exempt_usize_adds += 1
+                return r
             ok = self.in_range(st, r, ty)
             self.obligations.append((site, base, ok, T.show(r)))
             if ok:
@@ -712,6 +734,8 @@ class Interp:
                 st.events.append(('may-truncate', site, T.show(v)))
                 return st.fresh_var('cast', to_ty)
             raise Unanalysable('cast to %s' % to_ty)
+        if kind == 'Transmute' and to_ty in INT_TYS and not isinstance(v, tuple):
+            return st.fresh_var('addr', to_ty)
         if kind.startswith('PointerCoercion') or kind in ('PtrToPtr', 'Transmute', 'Subtype') or kind.startswith('PtrToPtr'):
             if isinstance(v, Sym):
                 return Sym(v.term, v.ty, v.over, v.variant)
@@ -885,6 +909,10 @@ class Interp:
                 self.do_switch(st, fr, d, t, work, out)
                 return
             elif k == 'assert':
+                if t[3].get('kind') == 'other' and ('Misaligned' in t[3].get('dbg', '') or 'NullPointer' in t[3].get('dbg', '')):
+                    # pointer validity checks inserted by rustc for raw-pointer dereferences in std macro expansions
+                    fr.bb = t[4]
+                    continue
                 c = self.operand(st, fr, t[1])
                 exp = t[2]
                 good = c if exp else T.mk_not(c)
